@@ -19,29 +19,6 @@ from litex.soc.interconnect import csr_bus as _csr_bus
 STORAGE, STATUS, RAW = "storage", "status", "raw"
 
 
-def _memoize_tracer():
-    """The py3.12 tracer shim (envshim) disassembles the calling function for every frame of every Signal()
-    created (~7 ms per Signal).  Its answer depends only on (code object, f_lasti), so memoize it."""
-    import envshim
-    envshim.install()
-    import migen.fhdl.tracer as tr
-    orig = tr.get_var_name
-    if getattr(orig, "_c12_memo", False):
-        return
-    cache = {}
-
-    def get_var_name(frame):
-        key = (frame.f_code, frame.f_lasti)
-        try:
-            return cache[key]
-        except KeyError:
-            r = cache[key] = orig(frame)
-            return r
-    get_var_name._c12_memo = True
-    tr.get_var_name = get_var_name
-
-
-_memoize_tracer()
 _KIND_NUM = {STORAGE: 0, STATUS: 1, RAW: 2}
 
 
